@@ -168,6 +168,12 @@ def _is_str(e, f, P, depth=0):
                         return False
             elif isinstance(nd, ast.NamedExpr) and nd.target.id == e.id:
                 asg.append(nd.value)
+        if not asg and f is not None:
+            # a module-level constant: every module-level assignment to the name is a string (and no function rebinds it)
+            m = f.module
+            ga = [nd.value for nd in m.tree.body if isinstance(nd, ast.Assign) and any(isinstance(t, ast.Name) and t.id == e.id for t in nd.targets)]
+            rebound = any(isinstance(nd, ast.Global) and e.id in nd.names for nd in ast.walk(m.tree))
+            return bool(ga) and not rebound and all(_is_str(v, None, P, depth + 1) for v in ga)
         return bool(asg) and all(_is_str(v, f, P, depth + 1) for v in asg)
     return False
 
